@@ -278,13 +278,13 @@ impl Machine {
                 use zeroize::Zeroize;
                 let h = &mut self.hashers[idx(f[1])];
                 h.zeroize();
-                self.out.push(scan_nonzero(h));
+                self.out.push(field_scan(h, &blake3::verif_secret_field_ranges_hasher()));
             }
             "zr" => {
                 use zeroize::Zeroize;
                 let r = &mut self.readers[idx(f[1])];
                 r.zeroize();
-                self.out.push(scan_nonzero(r));
+                self.out.push(field_scan(r, &blake3::verif_secret_field_ranges_output_reader()));
             }
             // ---- RustCrypto traits (C16) ----
             "tu" => {
@@ -341,21 +341,26 @@ impl Machine {
     }
 }
 
-fn scan_nonzero<T>(obj: &T) -> String {
+// After zeroize(): every byte inside a field range (hook: all fields except `platform`) must be
+// zero. Bytes outside the ranges are padding or the platform discriminant: not a violation
+// (the language does not define padding), they are not reported.
+fn field_scan<T>(obj: &T, ranges: &[(usize, usize)]) -> String {
     let p = obj as *const T as *const u8;
     let n = std::mem::size_of::<T>();
-    let mut nz = vec![];
-    for i in 0..n {
-        // reading padding bytes is not defined by the language; volatile read of raw memory
-        let b = unsafe { std::ptr::read_volatile(p.add(i)) };
-        if b != 0 {
-            nz.push(i);
+    let mut bad = vec![];
+    for &(off, len) in ranges {
+        assert!(off + len <= n);
+        for i in off..off + len {
+            let b = unsafe { std::ptr::read_volatile(p.add(i)) };
+            if b != 0 {
+                bad.push(i);
+            }
         }
     }
-    if nz.is_empty() {
-        format!("zero/{n}")
+    if bad.is_empty() {
+        "zero".into()
     } else {
-        format!("nonzero/{n}/{}", nz.iter().map(|i| i.to_string()).collect::<Vec<_>>().join(","))
+        format!("nonzero/{}", bad.iter().map(|i| i.to_string()).collect::<Vec<_>>().join(","))
     }
 }
 
@@ -537,6 +542,29 @@ fn run_case(line: &str) -> String {
             blake3::platform::verif_force_platform(None);
         }
         "tohex" | "fromhex" | "fromslice" | "eq" | "serde" => hash_conv_case(&toks, &mut out),
+        "file" => {
+            // file <expected-bytes-spec|-|!> <path>: update_reader(File), update_mmap, update_mmap_rayon
+            let path = toks[2];
+            let r1 = std::fs::File::open(path).and_then(|f| {
+                let mut h = blake3::Hasher::new();
+                h.update_reader(f)?;
+                Ok(h.finalize())
+            });
+            let r2 = {
+                let mut h = blake3::Hasher::new();
+                h.update_mmap(path).map(|h| h.finalize())
+            };
+            let r3 = {
+                let mut h = blake3::Hasher::new();
+                h.update_mmap_rayon(path).map(|h| h.finalize())
+            };
+            for r in [r1, r2, r3] {
+                match r {
+                    Ok(h) => out.push(hex(h.as_bytes())),
+                    Err(_) => out.push("ERR".into()),
+                }
+            }
+        }
         "lsl" | "msl" => helper_case(&toks, &mut out),
         other => panic!("unknown case kind {other}"),
     }));
